@@ -68,6 +68,10 @@ def one_d_vs_two_d(rep, rng, conf, tier):
     spread = (T2[: ie2 + 1].max(axis=2) - T2[: ie2 + 1].min(axis=2)).max()
     r1, r2 = S1.results.iloc[0], S2.results.iloc[0]
     rep.case(lab, nontrivial=True, sample=dict(pair=lab, radial_spread_K=float(spread), t_nuc_1D=float(r1["t_nuc"]), t_nuc_2D=float(r2["t_nuc"])))
+    try:
+        rep._c2.append(sr.sn2d_case(S2, dt2, rng)[0]); rep._l2.append(lab)
+    except Exception as e:
+        rep.violation("correspondence-case-2D", "cannot build the 2D one-step case: %r" % e, dict(pair=lab), found_input=False)
     rep.coverage["radial_spread_K_" + conf] = float(spread)
     rep.coverage["t_nuc_1D_vs_2D_" + conf] = [float(r1["t_nuc"]), float(r2["t_nuc"])]
     if spread > 1e-6:
@@ -91,7 +95,8 @@ def one_d_vs_two_d(rep, rng, conf, tier):
 
 def check(rep, tier):
     rng = random.Random(rep.seed)
-    ok, msg = common.proof_stage(rep, "C15", [])
+    ok, msg = common.proof_stage(rep, "C15", ["theories/model/Sn2DF.vo"])
+    rep._c2, rep._l2 = [], []
     rep.rule = ("paired runs in the overlap of two models: (a) Snowing 0D vs an isolated 1x1x1 Snowflake (k_int = k_ext = 0, H_shelf = K A, dt = 0.1 s, direct initial-ice method, nucleation instant "
                 "scripted to the 0D one): cooling curve to 1e-9, nucleation state, solidification time to 1 %; (b) 1D vs 2D of equal cross-section, shelf and VISF: radial uniformity of the 2D field, "
                 "nucleation times, evaporative cooling of the top surface during the vacuum window; non-trivial = every pair")
@@ -107,5 +112,7 @@ def check(rep, tier):
             one_d_vs_two_d(rep, rng, conf, tier)
         except Exception as e:
             rep.violation("pair-crash %s" % type(e).__name__, "1D vs 2D %s pair raises %r" % (conf, e), dict(conf=conf))
+    import c07
+    c07.coq_2d(rep, rep._c2, rep._l2, "c15_2d")
     if not ok:
         rep.violation("proof-broken", "proof obligations of C15 do not check: " + msg, dict(theorem="props/C15.v", log=msg), found_input=False)
